@@ -447,6 +447,14 @@ def TSource.range {κ : Type} (src : TSource κ) (ranges : List (Nat × Nat)) : 
       | some mapped => src.cell mapped
       | none => none }
 
+/-- `TensorMask` given the per-dimension `(start, length)` (already clipped, all dimensions):
+    `IndexRange::mask`: `if index < start { index } else { index + length }` -/
+def TSource.mask {κ : Type} (src : TSource κ) (masks : List (Nat × Nat)) : TSource κ :=
+  { shape := (List.zip src.shape masks).map fun (l, m) => l - m.2
+    cell := fun idx =>
+      if idx.length ≠ masks.length then none else
+      src.cell ((List.zip masks idx).map fun (m, i) => if i < m.1 then i else i + m.2) }
+
 /-- `TensorReverse`: `reverse_indexes(&indexes, &self.view_shape(), &self.reversed)` -/
 def TSource.reverse {κ : Type} (src : TSource κ) (reversed : List Bool) : TSource κ :=
   { shape := src.shape
